@@ -197,7 +197,10 @@ Fixpoint conform_run (cfg : config) (st : state) (i : Z) (tr : list (op * obs)) 
   end.
 
 (* ---- wire format ---------------------------------------------------------------
-   case  := 17 thresh  nL laddr{nL}  nQ laddr{nQ}  nC conn{nC}  step*
+   case  := 17 thresh mode  nL laddr{nL}  nQ laddr{nQ}  nC conn{nC}  step*
+   mode  := 0: the harness called maybeRecordObservation/removeConn directly;
+            1: through the event bus, worker and network notifiee (same meaning;
+               recorded so that a replay re-executes the same way)
    laddr := ltw rest            ltw = -1: the address has no thin-waist form;
                                 rest = id of the multiaddr after the thin waist
    conn  := ltw lfam lproto rkind r0 r1 r2 r3 r4 r5 r6 r7
@@ -324,7 +327,7 @@ Definition the_cap : nat := Z.to_nat maxExternalThinWaistAddrsPerLocalAddr.
 
 Definition decode_case (l : list Z) : option (config * list (op * obs)) :=
   match l with
-  | 17 :: th :: r =>
+  | 17 :: th :: _mode :: r =>
       match take_counted_pairs r with
       | Some (ls, r1) =>
           match take_counted_pairs r1 with
